@@ -118,6 +118,7 @@ type Addr struct {
 	larr  *ssa.Alloc
 	li    int
 	gname string
+	shared string // elements of a shared slice are shared
 }
 
 type Frame struct {
